@@ -54,14 +54,22 @@ class C16(framework.PropertyCheck):
                                 '(print (rising t0^top.clk) (count (= t0^top.clk 0)))']), '(print "idx " INDEX)']
         r.shuffle(extra) if False else None
         forms = [f'(print {f})' if not f.startswith('(define') and r.random() < 0.7 else f for f in forms] + extra
-        if r.random() < 0.1:
-            forms.append(r.choice(['(exit 3)', '(print undefined-variable-zz)', '(exit)']))
+        if r.random() < 0.15:
+            forms.append(r.choice(['(exit 3)', '(print undefined-variable-zz)', '(exit)',
+                                   '(do (defun boom9 [a] (+ a undefined-variable-zz)) (print "in") (boom9 1))',
+                                   '(do (defun boom8 [a] (first a)) (boom8 5))']))
             forms.append('(print "after")')
         return forms
 
     def cases(self, rng, tier, n):
-        for _ in range(n):
-            yield {'seed': rng.randrange(1 << 30), 'trace': rng.random() < 0.5}
+        for k in range(n):
+            c = {'seed': rng.randrange(1 << 30), 'trace': rng.random() < 0.5}
+            if k % 6 == 5:
+                c['trace'] = True
+                c['two'] = True        # two traces, given to -l in an order that is not the alphabetical one
+            if k % 12 == 7:
+                c['module'] = True     # a module of its own (macro defined and used inside) loaded with eval-file, as source and compiled
+            yield c
 
     _trace = None
 
@@ -71,17 +79,70 @@ class C16(framework.PropertyCheck):
             C16._trace = gen_trace.render(vf)
         return C16._trace
 
+    _trace2 = None
+
+    def _vcd2(self):
+        if C16._trace2 is None:
+            vf, _ = gen_trace.simple_vcd(random.Random(61), 4, sigs=gen_expr.SIGS)
+            C16._trace2 = gen_trace.render(vf)
+        return C16._trace2
+
+    TWO = ['(print t0^MAX-INDEX " " t1^MAX-INDEX)', '(step t1 1)', '(print t0^INDEX " " t1^INDEX " " t1^top.cnt " " t0^top.cnt)']
+
     def steps(self, case):
         forms = self.gen_program(random.Random(case['seed']), case['trace'])
+        if case.get('module'):
+            return None
         st = []
         if case['trace']:
             st.append(('loadvcd', 't0', self._vcd()))
+        if case.get('two'):
+            st.append(('loadvcd', 't1', self._vcd2()))
+            forms = self.TWO + [f for f in forms if 'INDEX' not in f and 'find' not in f and 'whenever' not in f and 'count' not in f and '(step' not in f]
         for f in forms:
             st.append(('eval', 'eorg', f))
         return st
 
+    def module_oracle(self, case):
+        """(eval-file m) finds m.wo before m.wal: the program behaves the same with the module as source and compiled"""
+        wd = impl.workdir()
+        r = random.Random(case['seed'])
+        n = r.randint(2, 9)
+        lib = ["(defmacro sq9 [e] `(* ,e ,e))", f'(define base9 (sq9 {n}))', '(defun twice9 [a] (+ a a))', '(print "lib " base9)']
+        prog = ['(eval-file mylib9)', '(print (twice9 base9))', '(print (sq9 3))' if r.random() < 0.5 else '(print (twice9 2))']
+        outs = {}
+        for kind in ('wal', 'wo'):
+            d = os.path.join(wd, 'm_' + kind)
+            os.makedirs(d, exist_ok=True)
+            with open(os.path.join(d, 'mylib9.wal'), 'w') as f:
+                f.write('\n'.join(lib) + '\n')
+            with open(os.path.join(d, 'prog.wal'), 'w') as f:
+                f.write('\n'.join(prog) + '\n')
+            if kind == 'wo':
+                comp = cli(['walc', 'mylib9.wal', '-o', 'mylib9.wo'], d)
+                if comp[0] != 'done' or comp[1] != 0:
+                    return {'what': 'walc failed on a module', 'detail': comp, 'module': lib}
+                os.unlink(os.path.join(d, 'mylib9.wal'))
+            outs[kind] = cli(['wal', 'prog.wal'], d)
+            for fn in os.listdir(d):
+                os.unlink(os.path.join(d, fn))
+            os.rmdir(d)
+        a, b = outs['wal'], outs['wo']
+        if a[0] != 'done' or b[0] != 'done':
+            return None
+        if (a[1], a[2]) != (b[1], b[2]):
+            return {'what': 'a program behaves differently when the module it loads is compiled', 'module': lib, 'program': prog,
+                    'with_source': (a[1], a[2][-300:]), 'with_wo': (b[1], b[2][-300:]), 'stderr': b[3]}
+        if a[1] != 0:
+            return {'what': 'the module program failed', 'detail': (a[1], a[2][-300:], a[3])}
+        return None
+
     def oracle(self, case, iobs):
+        if case.get('module'):
+            return self.module_oracle(case)
         forms = self.gen_program(random.Random(case['seed']), case['trace'])
+        if case.get('two'):
+            forms = self.TWO + [f for f in forms if 'INDEX' not in f and 'find' not in f and 'whenever' not in f and 'count' not in f and '(step' not in f]
         wd = impl.workdir()
         src = os.path.join(wd, 'prog.wal')
         with open(src, 'w') as f:
@@ -92,10 +153,18 @@ class C16(framework.PropertyCheck):
             with open(tp, 'w') as f:
                 f.write(self._vcd())
             tr = ['-l', tp]
+            if case.get('two'):
+                tp = os.path.join(wd, 'zb.vcd')          # first on the command line, last in the alphabet
+                with open(tp, 'w') as f:
+                    f.write(self._vcd())
+                tp2 = os.path.join(wd, 'ya.vcd')
+                with open(tp2, 'w') as f:
+                    f.write(self._vcd2())
+                tr = ['-l', tp, tp2]
         # expected from the API run (iobs): stdout concatenated, exit status
         out = ''
         status = 0
-        for o in iobs[(1 if case['trace'] else 0):]:
+        for o in iobs[(2 if case.get('two') else 1 if case['trace'] else 0):]:
             if o[0] == 'ok':
                 out += o[2]
             elif o[0] == 'exit':
@@ -128,6 +197,9 @@ class C16(framework.PropertyCheck):
                 # a failing program: every path must fail too; the diagnostic text is not compared
                 if got_status == 0:
                     return {'what': f'path {k} reports success for a program that fails through the API', 'program': forms, 'stdout': got_out[-300:]}
+                if got_status != 70 or not got_out.startswith(out):
+                    return {'what': f'execution path "{k}" ends a failing program differently (exit status 70 after the output printed so far)',
+                            'program': forms, 'api': api, 'path': (got_status, got_out[:len(out) + 200]), 'stderr': r[3]}
                 continue
             if got_status != status or got_out != out:
                 return {'what': f'execution path "{k}" differs from the API run', 'program': forms, 'trace': case['trace'],
